@@ -28,6 +28,8 @@ def acq_entry(shape, api, mode, blocking, style, env, keystyle="owned", release=
     L += shape.build
     if shape.nested_owned_mask != "0":
         L.append("w().wait_ok_mask.set(%s);" % shape.nested_owned_mask)
+    if shape.kind == "retry" or shape.name.startswith("n_rt"):
+        L.append("w().check_hold_wait.set(true);")
     L.append("let snap0 = w().snapshot();")
     L.append("let orc = %s;" % oracle_try(shape, mode))
     held_ok = "w().held_x.get() == %s && w().held_s.get() == %s" % (xm, sm)
@@ -38,6 +40,7 @@ def acq_entry(shape, api, mode, blocking, style, env, keystyle="owned", release=
             L.append("let g = %s;" % unwrap_pois(shape, "coll.%s(k)" % api))
             L.append("vreach!(1);")
             L.append("vcheck!(%s, M_NOT_ALL_HELD);" % held_ok)
+            L.append("vcheck!(ThreadKey::get().is_none(), M_KEY_MODEL);")
             if release == "drop":
                 L.append("drop(g);")
             else:
@@ -51,6 +54,7 @@ def acq_entry(shape, api, mode, blocking, style, env, keystyle="owned", release=
             if env == "q":
                 body_ok.append("vcheck!(orc, M_TRY_VERDICT);")
             body_ok.append("vcheck!(%s, M_NOT_ALL_HELD);" % held_ok)
+            body_ok.append("vcheck!(ThreadKey::get().is_none(), M_KEY_MODEL);")
             if release == "drop":
                 body_ok.append("drop(g);")
             else:
@@ -80,7 +84,7 @@ def acq_entry(shape, api, mode, blocking, style, env, keystyle="owned", release=
             karg = "&mut k"
         L.append("w().api_begin();")
         clos = ("|_d| { w().closure_runs.set(w().closure_runs.get() + 1); "
-                "vcheck!(%s, M_NOT_HELD_IN_SECTION); 7u8 }" % held_ok)
+                "vcheck!(%s, M_NOT_HELD_IN_SECTION); vcheck!(ThreadKey::get().is_none(), M_KEY_MODEL); 7u8 }" % held_ok)
         if blocking:
             L.append("let r = coll.%s(%s, %s);" % (api, karg, clos))
             L.append("vreach!(1);")
@@ -164,6 +168,13 @@ def panic_entry(shape, api, mode, blocking, style, kind, keystyle="owned"):
     L += shape.build
     L.append("let orc = %s;" % oracle_try(shape, mode))
     L.append("let all_free = %s;" % oracle_try(shape, "w"))
+    if kind == "user" and is_pois(shape):
+        # the wrapper may already be poisoned by an earlier panic (poison is sticky)
+        L.append("if any_bool(T_MISC | 5) && all_free {")
+        L.append("\tlet r0 = catch_unwind(AssertUnwindSafe(|| { let g = match coll.lock(key()) { Ok(g) => g, Err(e) => e.into_inner() }; eng::inject_panic(); drop(g); }));")
+        L.append("\tcore::mem::forget(r0);")
+        L.append("\tvcheck!(coll.is_poisoned() && !w().held_any(), M_POISON_MODEL);")
+        L.append("}")
     if kind == "fault":
         L.append("w().fault_armed.set(true);")
     elif kind == "user":
@@ -355,10 +366,20 @@ ROUTE_IDS = {"own_lock": 0, "own_try_lock": 1, "own_scoped_lock": 2, "own_scoped
              "coll_scoped_read": 11}
 
 
+POIS_PROBE = """
+fn probe_pm(p: usize) -> bool {
+	unsafe { &*(p as *const PM) }.is_poisoned()
+}
+fn probe_pr(p: usize) -> bool {
+	unsafe { &*(p as *const PR) }.is_poisoned()
+}
+"""
+
+
 def pois_step(routes, idx, site):
     """rust for executing route #idx (python int) wrapped in catch_unwind, updating the model"""
     nm, excl, lines = routes[idx]
-    L = ["eng::event(E_MARK, %d, 0);" % (9100 + ROUTE_IDS[nm])]
+    L = ["eng::event(E_MARK, %d, 0);" % (9100 + ROUTE_IDS[nm]), "w().probe_last.set(2);"]
     L.append("let r = catch_unwind(AssertUnwindSafe(|| {")
     L += ["\t" + l.replace("S", str(site)) if "user_point(S)" in l else "\t" + l for l in lines]
     L.append("}));")
@@ -366,6 +387,9 @@ def pois_step(routes, idx, site):
     L.append("core::mem::forget(r);")
     if excl:
         L.append("if panicked { must = true; may = true; }")
+        # another thread acquiring right after the release must already see the poison: the flag has to be
+        # set before the raw lock is released
+        L.append("if panicked { vcheck!(w().probe_last.get() == 1, M_POISON_MODEL); }")
     else:
         L.append("if panicked { may = true; }")
     L.append("vcheck!(!w().held_any(), M_LEAK);")
@@ -379,6 +403,8 @@ def pois_entry(name, ia):
     setup, coll, k = POIS_SHAPES[name]
     routes = pois_routes(name)
     L = ["w().reset(false);"] + setup
+    L.append("w().probe_fn.set(Some(probe_p%s)); w().probe_arg.set(&*po as *const P%s as usize); w().probe_lock.set(6);" % (k.lower(), k) if name == "ow_pm" else
+             "w().probe_fn.set(Some(probe_p%s)); w().probe_arg.set(&po as *const P%s as usize); w().probe_lock.set(6);" % (k.lower(), k))
     L.append("let mut must = false;")
     L.append("let mut may = false;")
     L.append("w().user_panic_armed.set(true);")
@@ -429,7 +455,7 @@ def pois_entry(name, ia):
 
 
 def gen_poison(tier):
-    out = [HEADER]
+    out = [HEADER, POIS_PROBE]
     names = []
     for name in POIS_SHAPES:
         for ia in range(len(pois_routes(name))):
@@ -729,9 +755,44 @@ def order_entry(ca, ka, cb, kb, mode="lock", nested_a=None, nested_b=None, owned
     return nm, fn_wrap(nm, L)
 
 
+def order_ownedref_entry(fields, mode):
+    L = ["w().reset(false);", "let mut u = universe();"]
+    L.append("let t = (" + ", ".join("&mut u.%s" % f for f in fields) + ");")
+    L.append("let ca = RefLockCollection::new(&t);")
+    L.append("let cb = RefLockCollection::try_new(&t).unwrap();")
+    L.append("let cc = BoxedLockCollection::new_ref(&t);")
+    L.append("let cd = RetryingLockCollection::new_ref(&t);")
+    L.append("let ce = BoxedLockCollection::try_new((&cd,)).unwrap();")
+    L.append("w().log_on.set(true);")
+    L.append("let mut sa = [0u8; 8]; let mut sb = [0u8; 8]; let mut sc = [0u8; 8]; let mut se = [0u8; 8];")
+    L.append("let g = ca.%s(key()); drop(g);" % mode)
+    L.append("let na = acq_seq(0, &mut sa);")
+    L.append("let m1 = w().log_len.get();")
+    L.append("let g = cb.%s(key()); drop(g);" % mode)
+    L.append("let nb = acq_seq(m1, &mut sb);")
+    L.append("let m2 = w().log_len.get();")
+    L.append("let g = cc.%s(key()); drop(g);" % mode)
+    L.append("let nc = acq_seq(m2, &mut sc);")
+    L.append("let m3 = w().log_len.get();")
+    L.append("let g = ce.%s(key()); drop(g);" % mode)
+    L.append("let ne = acq_seq(m3, &mut se);")
+    n = len(fields)
+    L.append("vcheck!(na == %d && nb == %d && nc == %d && ne == %d, M_NOT_ALL_HELD);" % (n, n, n, n))
+    L.append("vcheck!(consistent(&sa, na, &sb, nb) && consistent(&sa, na, &sc, nc) && consistent(&sb, nb, &sc, nc) && consistent(&se, ne, &sb, nb), M_ORDER);")
+    L.append("vcheck!(increasing_universe(&sa, na) && increasing_universe(&sb, nb) && increasing_universe(&sc, nc) && increasing_universe(&se, ne), M_ORDER);")
+    L.append("vcheck!(!w().held_any(), M_HELD_AFTER_ERR);")
+    L.append("vreach!(3);")
+    nm = "ord_ownedref_%s__%s" % ("".join(fields), mode)
+    return nm, fn_wrap(nm, L)
+
+
 def gen_order(tier):
     out = [HEADER, ORDER_HELPERS]
     names = []
+    for fields, mode in ((("m2", "r0", "m0"), "lock"), (("r2", "r0", "r1"), "read"), (("m0", "r1", "m1"), "lock")):
+        nm, txt = order_ownedref_entry(fields, mode)
+        names.append(nm)
+        out.append(txt)
     combos = [("boxed", "MRM", "ref", "MRM", "lock", None, None, False),
               ("boxed", "MRM", "boxed", "RM", "lock", None, None, False),
               ("ref", "RRR", "boxed", "RR", "read", None, None, False),
@@ -857,9 +918,14 @@ fn key_step(op: u8, h: &mut H, m: &M, busy: &M, r: &R, po: &PM, coll: &BoxedLock
 		}
 		9 => {
 			if let Some(k) = h.cur.take() {
-				r.scoped_read(k, |_d| {
-					vcheck!(ThreadKey::get().is_none(), M_KEY_MODEL);
-				});
+				// owned key, shared scoped call, user code may panic: the key must come back either way
+				let res = catch_unwind(AssertUnwindSafe(move || {
+					r.scoped_read(k, |_d| {
+						vcheck!(ThreadKey::get().is_none(), M_KEY_MODEL);
+						user_point(3);
+					})
+				}));
+				core::mem::forget(res);
 				h.alive = false;
 			}
 		}
@@ -967,8 +1033,14 @@ fn key_step(op: u8, h: &mut H, m: &M, busy: &M, r: &R, po: &PM, coll: &BoxedLock
 		_ => {
 			if let Some(k) = h.cur.take() {
 				if !raw_m(m).held_by_t0() {
-					let v = coll.scoped_lock(k, |_d| 3u8);
-					vcheck!(v == 3, M_CLOSURE_COUNT);
+					let res = catch_unwind(AssertUnwindSafe(move || {
+						coll.scoped_lock(k, |_d| {
+							vcheck!(ThreadKey::get().is_none(), M_KEY_MODEL);
+							user_point(4);
+							3u8
+						})
+					}));
+					core::mem::forget(res);
 					h.alive = false;
 				} else {
 					h.cur = Some(k);
@@ -1001,7 +1073,7 @@ def gen_key(tier):
         B = ["w().reset(false);", "let u = universe();", "let po: PM = Poisonable::new(new_m(6));",
              "raw_m(&u.m1).st.set(ST_ENV); raw_m(&u.m1).sync();",
              "let coll = BoxedLockCollection::try_new((&u.m0, &u.r0)).unwrap();",
-             "let mut h = H { cur: None, alive: false };",
+             "let mut h = H { cur: None, alive: false };", "w().user_panic_armed.set(true);",
              "if any_bool(T_MISC | 6) { h.cur = ThreadKey::get(); h.alive = true; vcheck!(h.cur.is_some(), M_KEY_MODEL); }",
              "key_step(%d, &mut h, &u.m0, &u.m1, &u.r0, &po, &coll);" % first]
         for i in range(1, L):
@@ -1347,9 +1419,47 @@ def any_bool_stmt():
     return True
 
 
+NA_PANIC_DEBUG = """
+pub struct PD(pub u8);
+impl core::fmt::Debug for PD {
+	fn fmt(&self, f: &mut core::fmt::Formatter<'_>) -> core::fmt::Result {
+		user_point(7);
+		f.write_str("pd")
+	}
+}
+"""
+
+
+def na_panicking_debug_entries():
+    E = []
+    for k, ty, ctor in (("m", "crate::mutex::Mutex<PD, AuditMutex>", "crate::mutex::Mutex::new(PD(1))"),
+                        ("r", "crate::rwlock::RwLock<PD, AuditRwLock>", "crate::rwlock::RwLock::new(PD(1))")):
+        L = ["w().reset(false);", "w().user_panic_armed.set(true);", "let x: %s = %s;" % (ty, ctor),
+             "unsafe { x.raw() }.id.set(6);", "let y: %s = %s;" % (ty, ctor), "unsafe { y.raw() }.id.set(7);"]
+        if k == "m":
+            L.append("if any_bool(T_PRE | 6) { unsafe { x.raw() }.st.set(ST_ENV); unsafe { x.raw() }.sync(); }")
+        else:
+            L.append("let p = any_below(T_PRE | 6, 3); unsafe { x.raw() }.x.set(if p == 2 { ST_ENV } else { ST_FREE }); unsafe { x.raw() }.se.set(if p == 1 { 1 } else { 0 }); unsafe { x.raw() }.sync();")
+        L.append("let t = (&x, &y);")
+        L.append("let coll = RefLockCollection::try_new(&t).unwrap();")
+        L.append("let ow: OwnedLockCollection<(%s,)> = OwnedLockCollection::new((%s,));" % (ty, ctor))
+        L.append("let snap0 = w().snapshot(); let b0 = w().blocking_ops.get();")
+        for target in ("&x", "&coll", "&t", "&ow"):
+            L.append("{ let r = catch_unwind(AssertUnwindSafe(|| { eng::debug_fmt(%s) })); core::mem::forget(r); }" % target)
+            L.append(NA_CHECK)
+            L.append("vcheck!(!w().held_any(), M_HELD_AFTER_ERR);")
+        L.append("vreach!(3);")
+        nm = "na_dbgpanic_%s" % k
+        E.append((nm, fn_wrap(nm, L)))
+    return E
+
+
 def gen_nonacq(tier):
-    out = [HEADER]
+    out = [HEADER, NA_PANIC_DEBUG]
     names = []
+    for nm, txt in na_panicking_debug_entries():
+        names.append(nm)
+        out.append(txt)
     for sh in all_shapes(tier):
         for variant in ("env", "guard", "scoped"):
             if sh.kind == "ref" and False:
